@@ -240,17 +240,25 @@ def lowerUpdate (prim : Einx.Update.Prim) (broadcasts : Bool) (tgt : In) (coords
   let (t, sx1) ← prep sx0 tgt
   let ((), rflat, shflat, sx2) ← sx1.seg t.reg t.shape (fun s => pure ((), reshapeW s [Einx.prod t.shape]))
   let (idx, sx3) ← ravel sx2 t tgt.marked coords inter
-  let (u, sx4) ← prep sx3 upd
-  let (u2, sx5) ← align (t.expr.length + 1) sx4 u inter
+  -- the shape of the aligned updates (a dry run of their chain: the traced DAG is serialised depth first, so the
+  -- `broadcast_to` of the indices precedes the chain of the updates although Python executes it afterwards)
+  let (ud, sxd) ← prep sx3 upd
+  let (ud2, _) ← align (t.expr.length + 1) sxd ud inter
   -- classical_from_numpy.update_at
-  if idx.shape.length != u2.shape.length then throw "Expected indices and updates to have the same number of dimensions"
-  let (ridx, rupd, sx7) ←
+  if idx.shape.length != ud2.shape.length then throw "Expected indices and updates to have the same number of dimensions"
+  let full := elemMax idx.shape ud2.shape
+  let (ridx, sx4) ←
     if broadcasts then do
-      let full := elemMax idx.shape u2.shape
-      let ((), ri, _, sx6) ← sx5.seg idx.reg idx.shape (fun s => pure ((), broadcastW s full))
+      let ((), ri, _, sx4) ← sx3.seg idx.reg idx.shape (fun s => pure ((), broadcastW s full))
+      pure (ri, sx4)
+    else pure (idx.reg, sx3)
+  let (u, sx5) ← prep sx4 upd
+  let (u2, sx6) ← align (t.expr.length + 1) sx5 u inter
+  let (rupd, sx7) ←
+    if broadcasts then do
       let ((), ru, _, sx7) ← sx6.seg u2.reg u2.shape (fun s => pure ((), broadcastW s full))
-      pure (ri, ru, sx7)
-    else pure (idx.reg, u2.reg, sx5)
+      pure (ru, sx7)
+    else pure (u2.reg, sx6)
   -- the tail: `classical.reshape(tensor, expr_tensor.shape)`, transpose/broadcast to the flat output, compose
   let s0 : St := { reg := 0, shape := shflat, prog := [], next := 1 }
   let s1 := reshapeW s0 (lens t.expr)
